@@ -442,6 +442,25 @@ fn seq_family(prop: &str) -> i32 {
         }
         scen.push(stats_json(&format!("{} salt0", crate::hist::Scenario::name(&sc)), &st));
     }
+    // a compressed run that straddles the boundary between two refcount blocks' ranges is released by COW
+    {
+        let g = images::G9;
+        let img = crate::extra::compressed_rb_straddle_image();
+        let (cs, bs) = (g.cs(), g.bs());
+        let w = |off: u64, len: u64, tag: u32| Op::Write { off, len: len as usize, tag };
+        let alpha = vec![w(57 * cs, bs, 1), w(58 * cs, bs, 2), w(59 * cs, cs, 3), Op::Discard { off: 0, len: cs }, Op::Flush, Op::Reopen];
+        qcow2_rs::verif::set_order_salt(0);
+        let sc = SeqScenario::new(img, g.cfg_small(), g.cfg_alt(), "small", alpha, oracles.clone());
+        let lim = BfsLimits { depth: if thorough { 5 } else { 3 }, max_states: 3_000_000, deadline: deadline_in(if thorough { 100 } else { 6 }) };
+        let st = bfs(&sc, &lim, &mut viol);
+        states += st.states;
+        trans += st.transitions;
+        outcomes += st.distinct_outcomes;
+        if st.capped || st.depth_completed < st.depth_target {
+            all_complete = false;
+        }
+        scen.push(stats_json(&format!("{} salt0", crate::hist::Scenario::name(&sc)), &st));
+    }
     // fragmented host space: multi-cluster allocations that cross refblock slices and must retry
     {
         let gf = crate::extra::GF;
@@ -588,6 +607,9 @@ pub fn sched_curated(g: &Geo) -> Vec<(&'static str, &'static str, Vec<Op>, Vec<V
         // starts meanwhile, and an allocating writer that may get the released cluster
         ("reader-vs-discard-vs-inplace-write-vs-alloc", "libfmt", vec![w(0, cs, 0x51), Op::Flush], vec![vec![r(0, cs)], vec![Op::Discard { off: 0, len: cs }], vec![w(0, bs, 0x11)], vec![w(2 * cs, cs, 0x12)]]),
         ("flush-vs-discard-vs-inplace-write-vs-alloc", "libfmt", vec![w(0, cs, 0x51), Op::Flush, w(cs, cs, 0x52)], vec![vec![Op::Flush], vec![Op::Discard { off: 0, len: cs }], vec![w(0, bs, 0x11)], vec![w(2 * cs, cs, 0x12)]]),
+        // two first writers of one fresh cluster while a flush pass starts (need_flush is cleared at its start)
+        ("two-first-writers-vs-flush", "libfmt", vec![w(tb, bs, 0x51)], vec![vec![w(0, bs, 0x11)], vec![w(cs - bs, bs, 0x12)], vec![Op::Flush]]),
+        ("first-writer-vs-flush-vs-reader", "data", vec![w(tb, bs, 0x51)], vec![vec![w(4 * cs, bs, 0x11)], vec![Op::Flush], vec![r(4 * cs, cs)]]),
         // shrink vs writers
         ("shrink-vs-writers", "libfmt", vec![w(0, cs, 0x51)], vec![vec![Op::Shrink], vec![w(cs, cs, 0x11)], vec![w(tb, bs, 0x12)]]),
         // write dirtying metadata while a flush is in progress, then nothing else (C18)
@@ -670,6 +692,7 @@ pub fn growth_sched_scenarios() -> Vec<SchedScenario> {
     let l1_scn: Vec<(&str, Vec<Op>, Vec<Vec<Op>>)> = vec![
         ("l1-relocation-vs-write", vec![], vec![vec![w(64 * tb, cs, 0x11)], vec![w(0, cs, 0x12)]]),
         ("l1-relocation-vs-flush", vec![w(0, cs, 0x51)], vec![vec![w(64 * tb, cs, 0x11)], vec![Op::Flush]]),
+        ("l1-relocation-vs-discard", vec![], vec![vec![w(64 * tb, cs, 0x11)], vec![Op::Discard { off: 0, len: cs }]]),
         ("l1-relocation-vs-two-writes", vec![], vec![vec![w(64 * tb, cs, 0x11)], vec![w(130 * tb, cs, 0x12)], vec![w(cs, cs, 0x13)]]),
     ];
     for (name, setup, tasks) in l1_scn {
@@ -1014,7 +1037,7 @@ pub fn sched_family(prop: &str) -> i32 {
         scenarios.extend(duo2_scenarios(&g, &["Xdirty", "XYcold"]));
     }
     // metadata growth racing other calls (slow executions: 2 MiB images): one of each kind in the quick tier
-    scenarios.extend(growth_sched_scenarios().into_iter().filter(|s| thorough || s.name.ends_with("-vs-flush") || s.name.starts_with("flush-two-refcount-passes")));
+    scenarios.extend(growth_sched_scenarios().into_iter().filter(|s| thorough || s.name.ends_with("-vs-flush") || s.name.ends_with("-vs-discard") || s.name.starts_with("flush-two-refcount-passes")));
     if let Ok(f) = std::env::var("QMC_ONLY") {
         scenarios.retain(|s| s.name.contains(&f));
     }
@@ -1213,6 +1236,10 @@ pub fn crash_family(prop: &str) -> i32 {
         j["distinct_crash_images_checked"] = json!(n);
         images_n += n;
         distinct += n;
+        // and with the requests of the retried flush completing in any order
+        let (v2, j2) = faulted_concurrent_part(thorough, "C04");
+        run.add_all(v2);
+        j["retried_flush_under_the_scheduler"] = j2;
         faulted = j;
     }
     if prop == "C05" {
@@ -1286,7 +1313,7 @@ pub fn crash_family(prop: &str) -> i32 {
 /// backend is healed and the end state is judged like any concurrent execution, failed calls being
 /// optional: no panic or deadlock, per-block linearizability of what the device reads, content equal
 /// after flush + reopen.
-pub fn faulted_concurrent_part(thorough: bool) -> (Vec<Violation>, Value) {
+pub fn faulted_concurrent_part(thorough: bool, prop: &str) -> (Vec<Violation>, Value) {
     let g = images::G10;
     let (cs, bs, tb) = (g.cs(), g.bs(), g.tb());
     let w = |off: u64, len: u64, tag: u32| Op::Write { off, len: len as usize, tag };
@@ -1300,7 +1327,17 @@ pub fn faulted_concurrent_part(thorough: bool) -> (Vec<Violation>, Value) {
         ("write||flush", warm.clone(), vec![vec![w(cs, cs, 0x11)], vec![Op::Flush]]),
         ("discard||write", warm.clone(), vec![vec![Op::Discard { off: 0, len: cs }], vec![w(2 * cs, cs, 0x11)]]),
     ];
-    if thorough {
+    if prop == "C04" {
+        // crash states of a flush that is retried after one of its requests failed, with requests
+        // completing in any order (two dirty slices of an L2 table that is on disk already)
+        let sl = g.sl();
+        let two_dirty = vec![w(0, bs, 0x51), w(sl, bs, 0x52), Op::Flush, w(cs, cs, 0x53), w(sl + cs, cs, 0x54)];
+        scn = vec![
+            ("flush;flush", two_dirty.clone(), vec![vec![Op::Flush, Op::Flush]]),
+            ("flush;flush||write", two_dirty.clone(), vec![vec![Op::Flush, Op::Flush], vec![w(2 * cs, cs, 0x11)]]),
+        ];
+    }
+    if thorough && prop != "C04" {
         scn.push(("cold-write||cold-write", cold.clone(), vec![vec![w(tb + cs, bs, 0x11)], vec![w(cs, bs, 0x12)]]));
         scn.push(("discard||flush", warm.clone(), vec![vec![Op::Discard { off: 0, len: cs }], vec![Op::Flush]]));
         scn.push(("write-third-slice||read", warm.clone(), vec![vec![w(2 * tb, bs, 0x11)], vec![r(0, cs)]]));
@@ -1321,7 +1358,7 @@ pub fn faulted_concurrent_part(thorough: bool) -> (Vec<Violation>, Value) {
         }
     }
     let deadline = deadline_in(if thorough { 300 } else { 15 });
-    let want = ["C17", "C06", "C02"];
+    let want: Vec<&str> = if prop == "C04" { vec!["C04"] } else { vec!["C17", "C06", "C02"] };
     let results: Vec<(u64, Vec<Violation>)> = jobs
         .par_iter()
         .map(|&(si, k)| {
@@ -1335,7 +1372,7 @@ pub fn faulted_concurrent_part(thorough: bool) -> (Vec<Violation>, Value) {
                     for mut v in o.violations {
                         v.class = format!("concurrent-fault:{}:{}", v.prop, v.class);
                         v.detail = format!("{} [request {} of the concurrent phase failed]", v.detail, k);
-                        v.prop = "C17".into();
+                        v.prop = prop.to_string();
                         if viols.iter().filter(|y| y.class == v.class).count() < 2 {
                             viols.push(v);
                         }
@@ -1550,7 +1587,7 @@ pub fn fault_check() -> i32 {
         }
     }
     // a request failing inside a concurrent execution
-    let (cv, conc_json) = faulted_concurrent_part(thorough);
+    let (cv, conc_json) = faulted_concurrent_part(thorough, "C17");
     run.add_all(cv);
     for (img, g, alphabet, depth) in growth {
         let sc = FaultScenario { img: img.clone(), cfg: cfg_of(&g, "small"), cfg_name: "small".to_string(), crash_oracle: false };
@@ -1858,12 +1895,12 @@ pub fn alloc_check() -> i32 {
 pub fn discard_check() -> i32 {
     let run = Run::new("C11", "model_checking");
     let thorough = run.thorough();
-    let kinds = vec!["data", "data-last-table", "zero", "compressed", "backing", "libfmt"];
+    let kinds = vec!["data", "data-last-table", "zero", "compressed", "backing", "backing-short", "libfmt"];
     // (geometry, kinds, cfg, depth, secs, punch unsupported)
     let mut plans: Vec<(Geo, Vec<&str>, &str, usize, u64, bool)> = vec![
         (images::G10, kinds.clone(), "small", 2, 20, false),
         (images::G10, vec!["data", "backing"], "small", 2, 8, true),
-        (images::G9, vec!["data", "data-last-table", "backing"], "small", 2, 8, false),
+        (images::G9, vec!["data", "data-last-table", "backing", "backing-short"], "small", 2, 8, false),
     ];
     if thorough {
         plans = vec![
